@@ -184,7 +184,7 @@ class C05(E1Check):
                 "environment events or an injection; distinct = distinct complete traces")
 
     def bounds(self, tier: str) -> dict:
-        return {"shapes": QUICK_SHAPES if tier == "quick" else list(SHAPES), "deviation_bound": 0 if tier == "quick" else 1}
+        return {"shapes": QUICK_SHAPES if tier == "quick" else list(SHAPES), "deviation_bound": 0 if tier == "quick" else "1 for <= 3 components, 0 above"}
 
     def units(self, tier: str, seed: int) -> list:
         progs = []
@@ -214,8 +214,8 @@ class C05(E1Check):
     def bound(self, tier: str, program: Any) -> int:
         if tier == "quick":
             return 0
-        # one preemptive injection for trees of <= 4 components; the five-component shapes are explored over all gate orders only
-        return 1 if len(paths(program["tree"])) <= 4 else 0
+        # one preemptive injection for trees of <= 3 components; larger trees are explored over all gate orders only
+        return 1 if len(paths(program["tree"])) <= 3 else 0
 
     def max_execs(self, tier: str, program: Any) -> int:
         return 3000 if tier == "quick" else 12000
